@@ -1228,6 +1228,11 @@ class Interp:
         except Unsupported:
             return False
         if a.sort() != b.sort():
+            bs, is_ = z3.BoolSort(), z3.IntSort()
+            if {a.sort(), b.sort()} == {bs, is_}:  # bool is an int: True == 1, False == 0
+                ai = z3.If(a, 1, 0) if a.sort() == bs else a
+                bi = z3.If(b, 1, 0) if b.sort() == bs else b
+                return ai == bi
             if z3.is_fp(a) or z3.is_fp(b):
                 try:
                     return z3.fpEQ(_to_fp(a), _to_fp(b))
@@ -1860,15 +1865,15 @@ def _isinstance1(interp, v, n, node):
     if isinstance(v, float):
         return n in ("float", "object")
     if isinstance(v, str):
-        return n in ("str", "object")
+        return n in ("str", "object", "Iterable", "Sequence", "Collection", "Container", "Sized")
     if isinstance(v, list) or isinstance(v, SymList):
-        return n in ("list", "object")
+        return n in ("list", "object", "Iterable", "Sequence", "MutableSequence", "Collection", "Container", "Sized")
     if isinstance(v, tuple):
-        return n in ("tuple", "object")
+        return n in ("tuple", "object", "Iterable", "Sequence", "Collection", "Container", "Sized")
     if isinstance(v, dict) or isinstance(v, SymMap):
-        return n in ("dict", "object")
+        return n in ("dict", "object", "Iterable", "Mapping", "MutableMapping", "Collection", "Container", "Sized")
     if isinstance(v, (set, frozenset)):
-        return n in ("set", "object")
+        return n in ("set", "object", "Iterable", "Set", "AbstractSet", "Collection", "Container", "Sized")
     if isinstance(v, CharBag):
         return n in ("str", "object")
     if isinstance(v, ExcVal):
@@ -1884,7 +1889,7 @@ def _isinstance1(interp, v, n, node):
         if s == z3.IntSort():
             return n in ("int", "object")
         if s == z3.StringSort():
-            return n in ("str", "object")
+            return n in ("str", "object", "Iterable", "Sequence", "Collection", "Container", "Sized")
         if z3.is_fp(v):
             return n in ("float", "object")
         h = interp.hooks.get("isinstance")
@@ -2103,6 +2108,8 @@ _orig_ex_Name = Interp.ex_Name
 def _ex_Name(self, e, env):
     if env.has(e.id):
         return env.lookup(e.id)
+    if e.id in ("int", "float", "str", "bool", "list", "dict", "tuple", "set", "type"):
+        return ClassRef(e.id)  # a builtin class stays a class (`typehint is float`); calling it consults the contract's model first
     if e.id in self.calls:
         return Fn(self.calls[e.id], e.id)
     if e.id in BUILTINS and e.id not in ("int", "str", "bool", "list", "dict", "tuple", "set", "type"):
